@@ -24,7 +24,7 @@ TECHNIQUE = (
     "exhaustive enumeration of evaluation histories: every fitness sequence over a small alphabet up to length 5-6 x "
     "optimisation direction x every split into evaluate() batches x tracker kind x re-presentation of evaluated "
     "individuals, against a running-best reference model; the four search algorithms on a stub representation with the "
-    "fitness landscape answered by the explorer (E1, deviation bounded)"
+    "fitness landscape answered by the explorer (E1, deviation bounded), including GP steps that evaluate offspring themselves; problems.helpers (best_individual, is_better, sort_population) on every population of up to 4-5 individuals over a fitness alphabet with infinities"
 )
 RULE = (
     "history = (fitness sequence, batching, direction, tracker kind); a recorder observes is_best and reads "
